@@ -78,24 +78,103 @@ def sync_last(fx):
     return obs
 
 
+def _origin_calls_through_captures(fx, f, t, ai, depth=0):
+    """Names of the calls argument ai derives from; a value captured by a closure is followed into the function
+    that builds the closure."""
+    calls, atoms, fields = q.arg_origin_calls(f, t, ai)
+    out = set(calls)
+    if f.is_closure and depth < 4 and any(a.kind == "arg" and a.what == 1 for a in atoms):
+        parent = fx.fns.get(f.root)
+        idxs = [fl[1] for fl in fields if fl[0] is None and isinstance(fl[1], int)]
+        if parent is not None:
+            from cfg import Prov, op_local
+            for b in parent.blocks:
+                if b.get("cleanup"):
+                    continue
+                for s in b["stmts"]:
+                    rv = s["rv"]
+                    if rv["k"] == "agg" and rv.get("ak") == "closure" and rv.get("closure") == f.path:
+                        for i in idxs:
+                            if i < len(rv["fields"]):
+                                l = op_local(rv["fields"][i])
+                                if l is not None:
+                                    tbl = {"std::os::unix::fs::PermissionsExt::mode": [0]}
+                                    for _b2, t2 in parent.calls():
+                                        for nm in q.names(t2):
+                                            if nm and nm.endswith(("::from_bits_retain", "::from_bits_truncate", "::bits")):
+                                                tbl[nm] = [0]
+                                    at2, _f2, _s2 = Prov(parent, table=tbl).origins(l)
+                                    out |= set(a.what for a in at2 if a.kind == "call")
+    return out
+
+
 def full_permissions(fx):
     """(e) copy_permissions applies the source's full permissions(): the argument of set_permissions
     derives from Metadata::permissions of File::metadata(infd) and from nothing else (no masking)."""
     obs = []
     hits = 0
+    import views
+    MODE_SOURCES = {"std::fs::Metadata::permissions", "std::os::unix::fs::MetadataExt::mode"}
+    MODE_PLUMBING = {"std::fs::File::metadata", "std::os::unix::fs::PermissionsExt::mode",
+                     "std::os::unix::fs::PermissionsExt::from_mode",
+                     "rustix::backend::fs::types::Mode::from_raw_mode", "rustix::backend::fs::types::Mode::from_bits_retain",
+                     "rustix::backend::fs::types::Mode::from_bits_truncate"}
+    seen_sites = set()
     for f in ro.fns_in_scope(fx, crates=("libfs", "libxcp")):
-        for n, (bi, t) in enumerate(q.calls_to(f, SET_PERMISSIONS)):
+        if not q.calls_to(f, SET_PERMISSIONS):
+            continue
+        # judged in the function that contains the call -- for a closure (`retry(|| fchmod(fd, mode))`) that is
+        # the view of the function the closure is written in, where the captured mode has its provenance
+        host = fx.fns.get(f.root) if f.is_closure else f
+        v = (views.view(fx, host.path, depth=4) if host is not None else None) or f
+        if not q.calls_to(v, SET_PERMISSIONS):
+            v = f          # the closure is run by a library helper (`rustix::io::retry_on_intr(|| ..)`): judged in place
+        for n, (bi, t) in enumerate(q.calls_to(v, SET_PERMISSIONS)):
+            sid = (t["span"]["file"], t["span"]["line"], t["span"].get("col"))
+            if sid in seen_sites:
+                continue
+            seen_sites.add(sid)
             hits += 1
-            calls, atoms, fields = q.arg_origin_calls(f, t, 1)
-            ok = calls == {"std::fs::Metadata::permissions"} or calls == {"std::fs::Metadata::permissions",
-                                                                          "std::fs::File::metadata"}
+            calls = _origin_calls_through_captures(fx, v, t, 1)
+            atoms = []
+            calls = set(c_ for c_ in calls if not c_.endswith(("::from_bits_retain", "::from_bits_truncate", "::bits")))
+            ok = bool(calls & MODE_SOURCES) and calls <= (MODE_SOURCES | MODE_PLUMBING)
             # and that metadata comes from the *source* descriptor (parameter 1 = infd) -- role detail in R-ROLE
-            obs.append(Ob("R-TABLE", mkkey("R-TABLE", f.path, SET_PERMISSIONS, n, "full-mode"), ok, q.loc_of(t), f.path,
+            obs.append(Ob("R-TABLE", mkkey("R-TABLE", host.path if host is not None else f.path, SET_PERMISSIONS, n, "full-mode"),
+                          ok, q.loc_of(t), f.path,
                           "mode passed to fchmod derives from %s" % sorted(calls),
                           None if ok else dict(origins=[repr(a) for a in atoms])))
     if not hits:
         obs.append(anchor_ob("R-TABLE", "no set_permissions call"))
     return obs
+
+
+def _only_formatted(f, l, depth=0):
+    """Every use of the value is a borrow that ends in a `fmt::Argument` (it is printed, nothing else)."""
+    from cfg import defuse, op_local
+    du = defuse(f)
+    uses = du.uses.get(l, [])
+    if not uses or depth > 4:
+        return False
+    for site, how in uses:
+        n = site.node
+        if site.is_term:
+            if n["k"] == "call" and (q.names(n)[0] or "").startswith(("core::fmt::rt::Argument", "core::fmt::Arguments")):
+                continue
+            if n["k"] in ("drop",):
+                continue
+            return False
+        rv = n["rv"]
+        if rv["k"] in ("ref", "use", "cast") and not n["lhs"].get("p"):
+            if not _only_formatted(f, n["lhs"]["l"], depth + 1):
+                return False
+            continue
+        if rv["k"] == "agg" and rv.get("ak") in ("array", "tuple") and not n["lhs"].get("p"):
+            if not _only_formatted(f, n["lhs"]["l"], depth + 1):
+                return False
+            continue
+        return False
+    return True
 
 
 def ownership_facts(fx):
@@ -140,6 +219,8 @@ def ownership_facts(fx):
            "core::convert::Into::into|OwnedFd"}
     for f in ro.fns_in_scope(fx, crates=("libxcp",)):
         for nn, (bi, t) in enumerate(q.calls_to(f, dup)):
+            if q.names(t)[0] == "std::os::fd::raw::AsRawFd::as_raw_fd" and _only_formatted(f, t["dest"]["l"]):
+                continue      # the descriptor's *number* is printed (a Display/Debug impl, a log line): nothing can write through it
             obs.append(Ob("R-WHO", mkkey("R-WHO", f.path, q.names(t)[0], nn, "fd-dup"), False, q.loc_of(t), f.path,
                           "libxcp duplicates/exports a descriptor: a writer could outlive the handle",
                           dict(callee=q.names(t)[0])))
